@@ -57,6 +57,12 @@ def c14(res, tier, seed, replay):
     for j in range(2 if tier == "quick" else 8):
         runs.append({"name": f"sync-scatter-records_slow-{j}", "timeout": 900,
                      "args": ["-old", 1 + j % 2, "-kind", "scatter", "-fault", "records:0:sleep", "-seed", seed * 100 + 80 + j, "-n", 1]})
+    # the destination of a moving record already holds an old version of it (left behind by a sender that died between
+    # the acknowledgement and its own delete, in an earlier change that was undone): what the owner hands over replaces it
+    for j, (old, kind) in enumerate(((1, "grow"), (2, "grow"), (2, "replace")) if tier == "quick" else
+                                    ((1, "grow"), (2, "grow"), (2, "replace"), (3, "shrink"), (1, "scatter"), (2, "scatter"))):
+        runs.append({"name": f"sync-{old}-{kind}-stale-{j}", "timeout": 900,
+                     "args": ["-old", old, "-kind", kind, "-fault", "stale:0:copy", "-seed", seed * 100 + 90 + j, "-n", 1]})
     results = drive_and_validate(res, runs, module="SyncTrace", cmd="sync", workers=4, invariants=())
     nf = ndied = nfailsync = 0
     distinct = set()
